@@ -17,7 +17,7 @@ STRS = [
     "none", "null", "path", "\\path", "100%", "%d", "%s%s", "%(a)s", "<b>&\"'`", "é",
     "a/b", "a.b", "b", "c", "x", "y", "3", "+5", "1_0", "3.0",
 ]
-KEYS_STR = ["a", "b", "c", "x", "y", "", "0", "1", "A", "key", "path", "a.b"]
+KEYS_STR = ["a", "b", "c", "x", "y", "", "0", "1", "A", "key", "path", "a.b", "value", "keys"]
 KEYS_OTHER = [0, 1, 2, True, False, 2.5, None, -1, 1.5]
 
 
